@@ -57,7 +57,8 @@ def reconfig(tier, seed):
     return runs, uniq, pmap(replay_popreconfig.replay_case, [(x, seed) for x in uniq])
 
 
-CL_CLAUSES = {'Agree', 'PriorAgrees', 'Available', 'Evaluable'}
+CL_CLAUSES = {'Agree', 'PriorAgrees', 'Available', 'Evaluable', 'Trace:Agree', 'Trace:FailedCallNoEffect', 'Trace:PriorReset',
+              'Trace:PriorFollowsData', 'Trace:PriorSet', 'Trace:PosteriorNeeds', 'Trace:Stutter', 'Trace:PriorAgrees'}
 
 
 def ctrl_life(tier, seed):
@@ -80,6 +81,16 @@ def ctrl_life(tier, seed):
     runs.append(dict(cfg='CtrlLife_walks.cfg', mode='exhaustive, every history of MaxOps=4 calls exported', histories=len(r.records),
                      **_summ(r)))
     recs = list(r.records)
+    if tier == 'quick':
+        # a third of the histories, chosen by content and rotating with the seed; every history in which data is set after a
+        # prior (the stratum of F29) is always replayed
+        from .common import digest
+
+        def keep(x):
+            ops = [h['op'] for h in x['hist']]
+            late_data = 'setprior' in ops and 'setdata' in ops[ops.index('setprior'):]
+            return late_data or int(digest(x), 16) % 3 == seed % 3
+        recs = [x for x in recs if keep(x)]
     if tier == 'thorough':
         for k in range(4):
             w = tlc.simulate('MC_CtrlLife', 'CtrlLife_long.cfg', 500, 40, seed=seed * 10 + k)
@@ -92,7 +103,54 @@ def ctrl_life(tier, seed):
         if k not in seen:
             seen.add(k)
             uniq.append(x)
-    return runs, uniq, pmap(replay_ctrllife.replay_case, [(x, seed) for x in uniq])
+    res = pmap(replay_ctrllife.replay_case, [(x, seed) for x in uniq])
+    # ---- code -> spec: recorded controller events validated by TLC against Trace_CtrlLife ------------------------
+    from . import validate_traces
+    traces = [dict(name='history-%d' % k, trace=t) for k, (_, _, t) in enumerate(res) if t]
+    traces += repo_ctrl_traces()
+    vres, verdicts = validate_traces.validate_ctrl([t['trace'] for t in traces], tag='c17')
+    runs.append(dict(cfg='Trace_CtrlLife', mode='trace validation: %d recorded traces, %d events' % (
+        len(traces), sum(len(t['trace']) for t in traces)), **_summ(vres)))
+    # binding control: a recorded prior that survives fix_parameters must be rejected
+    bad = None
+    for t in traces:
+        for k, e in enumerate(t['trace']):
+            if e['e'] == 'fix' and not e['err']:
+                bad = [dict(x) for x in t['trace']]
+                bad[k]['prior'] = True
+                break
+        if bad:
+            break
+    if bad is None:
+        raise MachineryError('no fix event recorded: binding control impossible')
+    _, cv = validate_traces.validate_ctrl([bad], tag='c17ctrl')
+    if cv[0]['clause'] not in ('PriorReset', 'PriorAgrees'):
+        raise MachineryError('binding control failed: corrupted trace accepted (%r)' % (cv[0],))
+    tfails = [dict(case=dict(trace=t['name'], events=t['trace'][max(0, v['line'] - 3):v['line']]), clause='Trace:' + v['clause'],
+                   manifestation='rejected', detail=v, features=['trace', 'repo_test' if '::' in t['name'] else 'history'])
+              for t, v in zip(traces, verdicts) if v['clause']]
+    return runs, uniq, [(f, c) for f, c, _ in res] + [(tfails, {'ctrl_traces': len(traces)})]
+
+
+def repo_ctrl_traces():
+    """the repository's own controller / inference / predictive tests, run on RefSim with the controller recorder on"""
+    import os
+    import subprocess
+    import sys
+    from .common import WORK, VERIF, CHI_SRC
+    out = os.path.join(WORK, 'ctrl-traces-%d.json' % os.getpid())
+    env = dict(os.environ, VERIF_TRACE_OUT=out, PYTHONPATH=VERIF + os.pathsep + CHI_SRC)
+    cmd = [sys.executable, '-m', 'pytest', '-q', '-p', 'no:cacheprovider', '-p', 'harness.ctrl_trace_plugin',
+           'chi/tests/test_problems.py', 'chi/tests/test_inference.py', 'chi/tests/test_predictive_models.py']
+    p = subprocess.run(cmd, cwd=CHI_SRC, env=env, stdout=subprocess.PIPE, stderr=subprocess.STDOUT, text=True, timeout=1800)
+    if not os.path.exists(out):
+        raise MachineryError('repository tests produced no controller traces:\n' + p.stdout[-2000:])
+    with open(out) as f:
+        traces = json.load(f)
+    os.remove(out)
+    if not traces:
+        raise MachineryError('repository tests produced no controller traces')
+    return traces
 
 
 def run(tier, seed):
